@@ -242,7 +242,7 @@ func plans() []plan {
 	}
 	// concurrent dialling, then one more sequential dial from every end state
 	for _, s := range []string{"v4x2", "v4x1v6x1", "v4x2v6x1", "v4x2v6x2"} {
-		b := 2
+		b := ev.Pick(1, 2)
 		if len(sets[s]) <= 2 {
 			b = -1
 		}
@@ -259,7 +259,9 @@ func plans() []plan {
 			}
 		}
 		ps = append(ps, plan{params{Set: s, Depth: 1, Threads: 2, Yield: true}, b})
-		ps = append(ps, plan{params{Set: s, Depth: 1, Threads: 2, Yield: false}, b})
+		if th || len(sets[s]) <= 2 {
+			ps = append(ps, plan{params{Set: s, Depth: 1, Threads: 2, Yield: false}, b})
+		}
 	}
 	return ps
 }
